@@ -698,3 +698,268 @@ Proof.
            repeat split; try exact L1; try exact I; try lia; try assumption.
            apply Hop; assumption.
 Qed.
+
+(* ================================================================== *)
+(* FLOWS MODE: calls ended by a response outside the retry conditions   *)
+
+Lemma cc_snoc : forall k tr x,
+  call_carried k (tr ++ [x]) = cc_step k (call_carried k tr) x.
+Proof. intros. unfold call_carried. apply fold_left_snoc. Qed.
+
+(* the retries since the latest "failed" = those of the current call + those
+   carried over the ends by non-retryable responses; for every trace *)
+Lemma cc_split : forall k tr,
+  0 <= since_end k tr /\ 0 <= carried k tr /\
+  since_failed k tr = since_end k tr + carried k tr.
+Proof.
+  intros k tr. unfold since_end, carried.
+  induction tr as [|x tr IH] using rev_ind.
+  - unfold call_carried, since_failed. simpl. lia.
+  - rewrite cc_snoc, since_failed_snoc.
+    destruct (call_carried k tr) as [a b]. cbn [fst snd] in IH.
+    destruct IH as [Ha [Hb Hs]].
+    unfold cc_step, sf_step. destruct x as [e o]. cbn [fst snd].
+    destruct e as [p s|s]; cbn [f_on].
+    + destruct (fkey_eqb (p, s) k); [|cbn [fst snd]; lia].
+      destruct o; cbn [fst snd]; lia.
+    + destruct (s =? snd k); cbn [fst snd]; lia.
+Qed.
+
+(* what the next Execute answers, in the vocabulary of calls *)
+Lemma f_next_call : forall att evs p s,
+  let st := fst (frun att evs) in
+  let tr := snd (frun att evs) in
+  let r := fstep att st (FExec p s) in
+  (snd r = FFailed <-> since_end (p, s) tr + carried (p, s) tr = Z.max 0 (att p)) /\
+  (snd r = FRetry <-> since_end (p, s) tr + carried (p, s) tr < Z.max 0 (att p)).
+Proof.
+  intros att evs p s st tr r. subst st tr r.
+  destruct (f_next att evs p s) as [Hf [Hr _]].
+  destruct (cc_split (p, s) (snd (frun att evs))) as [_ [_ E]].
+  rewrite <- E. split; assumption.
+Qed.
+
+(* the counter of a key is kept as long as no response reaches that processor
+   for that sequence — whatever else happens (this is the leak) *)
+Lemma f_kept : forall att evs evs2 k,
+  forallb (fun e => negb (f_on k e)) evs2 = true ->
+  get fkey_eqb (fst (frun att (evs ++ evs2))) k = get fkey_eqb (fst (frun att evs)) k /\
+  since_failed k (snd (frun att (evs ++ evs2))) = since_failed k (snd (frun att evs)).
+Proof.
+  intros att evs evs2 k. induction evs2 as [|e evs2 IH] using rev_ind; intro H.
+  - rewrite app_nil_r. split; reflexivity.
+  - rewrite forallb_app in H. apply andb_true_iff in H. destruct H as [H1 H2].
+    cbn [forallb] in H2. rewrite andb_true_r in H2. apply negb_true_iff in H2.
+    destruct (IH H1) as [IHg IHs]. rewrite app_assoc, frun_snoc.
+    destruct (frun att (evs ++ evs2)) as [st tr]. cbn [fst snd] in IHg, IHs.
+    unfold fstep_acc. cbn [fst snd].
+    destruct (fstep att st e) as [st' o] eqn:ES. cbn [fst snd].
+    assert (N : fkey_of e <> Some k).
+    { intro X. apply f_on_true in X. rewrite X in H2. discriminate. }
+    pose proof (fstep_isolation att st e k N) as Hi. rewrite ES in Hi. cbn [fst] in Hi.
+    rewrite Hi, since_failed_snoc. unfold sf_step. cbn [fst snd]. rewrite H2.
+    split; assumption.
+Qed.
+
+(* ================================================================== *)
+(* POLICY MODE: exhaustion forgets, a fresh opening gets the full budget *)
+
+Lemma grun_snoc_parts : forall c evs e,
+  fst (grun c (evs ++ [e])) = fst (gstep c (fst (grun c evs)) e) /\
+  snd (grun c (evs ++ [e])) = snd (grun c evs) ++ snd (gstep c (fst (grun c evs)) e).
+Proof.
+  intros c evs e. rewrite grun_snoc. destruct (grun c evs) as [st tr].
+  unfold gstep_acc. cbn [fst snd]. destruct (gstep c st e) as [st' o]. split; reflexivity.
+Qed.
+
+(* once the budget of the open call is used, nothing is stored for the sequence *)
+Lemma exhausted_none : forall c evs s,
+  seg_retries s (snd (grun c evs)) = Z.max 0 (pAttempts c) ->
+  get Z.eqb (fst (grun c evs)) s = None.
+Proof.
+  intros c evs s H. destruct (ginv_run c evs s) as [_ [_ He]].
+  destruct (get Z.eqb (fst (grun c evs)) s) as [[l cd]|]; [lia|reflexivity].
+Qed.
+
+Lemma pdecide_none_later : forall c status,
+  pdecide c None false status = ANoOpKeep \/ pdecide c None false status = ANoOpDel.
+Proof.
+  intros c status. unfold pdecide. destruct (in_ranges (pRanges c) status); auto.
+Qed.
+
+(* a later (non-opening) response of a sequence without visible state: NoOp,
+   every lookup of the store answers as before *)
+Lemma gstep_none_later : forall c st s status vis,
+  (vis = false \/ get Z.eqb st s = None) ->
+  let r := gstep c st (GResp s false status vis) in
+  snd r = [(s, false, status, PNoOp)] /\
+  (get Z.eqb st s = None -> forall s', get Z.eqb (fst r) s' = get Z.eqb st s').
+Proof.
+  intros c st s status vis Hf r. unfold r. cbn [gstep fst snd].
+  assert (F : (if vis then get Z.eqb st s else None) = None).
+  { destruct Hf as [->|H]; [reflexivity|]. destruct vis; [exact H|reflexivity]. }
+  rewrite F. destruct (pdecide_none_later c status) as [E|E]; rewrite E; cbn [pact_out papply].
+  - split; [reflexivity|]. intros _ s'. reflexivity.
+  - split; [reflexivity|]. intros Hn s'. destruct (Z.eq_dec s s') as [<-|N].
+    + rewrite (get_del_same Z.eqb). symmetry. exact Hn.
+    + apply (get_del_other Z.eqb zeqb_spec). exact N.
+Qed.
+
+Lemma no_open_seg_step : forall c st e s tr,
+  no_open s e = true ->
+  seg_retries s (tr ++ snd (gstep c st e)) =
+    seg_retries s tr + retries s (snd (gstep c st e)) /\
+  retries s (tr ++ snd (gstep c st e)) = retries s tr + retries s (snd (gstep c st e)).
+Proof.
+  intros c st e s tr H. destruct e as [s0 n status vis|s0]; cbn [gstep snd].
+  - rewrite seg_snoc, retries_snoc. unfold seg_step, tot_step, retries, r_seq, r_new, r_out.
+    cbn [fst snd fold_left]. unfold tot_step, r_seq, r_out. cbn [fst snd].
+    unfold no_open in H. cbn [g_opens] in H. apply negb_true_iff in H.
+    destruct (s0 =? s) eqn:On; cbn [andb] in H.
+    + subst n. split; lia.
+    + split; lia.
+  - rewrite !app_nil_r. unfold retries. cbn [fold_left]. split; lia.
+Qed.
+
+Lemma retries_step_nonneg : forall c st e s, 0 <= retries s (snd (gstep c st e)).
+Proof.
+  intros c st e s. destruct e as [s0 n status vis|s0]; cbn [gstep snd].
+  - unfold retries. cbn [fold_left]. unfold tot_step, r_seq, r_out. cbn [fst snd].
+    destruct (s0 =? s); [|lia].
+    destruct (pact_out _); cbn [retry1]; lia.
+  - unfold retries. cbn [fold_left]. lia.
+Qed.
+
+(* after exhaustion, as long as the sequence is not opened again: no retry is
+   ever asked for it, nothing is stored for it — for every continuation, every
+   interleaving, every cache behaviour *)
+Lemma exhausted_stays : forall c evs evs2 s,
+  seg_retries s (snd (grun c evs)) = Z.max 0 (pAttempts c) ->
+  forallb (no_open s) evs2 = true ->
+  seg_retries s (snd (grun c (evs ++ evs2))) = Z.max 0 (pAttempts c) /\
+  get Z.eqb (fst (grun c (evs ++ evs2))) s = None /\
+  retries s (snd (grun c (evs ++ evs2))) = retries s (snd (grun c evs)).
+Proof.
+  intros c evs evs2 s H0. induction evs2 as [|e evs2 IH] using rev_ind; intro H.
+  - rewrite app_nil_r. split; [exact H0|]. split; [apply exhausted_none; exact H0|reflexivity].
+  - rewrite forallb_app in H. apply andb_true_iff in H. destruct H as [H1 H2].
+    cbn [forallb] in H2. rewrite andb_true_r in H2.
+    destruct (IH H1) as [IHs [_ IHr]]. rewrite app_assoc.
+    destruct (grun_snoc_parts c (evs ++ evs2) e) as [_ Et].
+    destruct (no_open_seg_step c (fst (grun c (evs ++ evs2))) e s
+                (snd (grun c (evs ++ evs2))) H2) as [Es Er].
+    rewrite <- Et in Es, Er.
+    pose proof (seg_bound c ((evs ++ evs2) ++ [e]) s) as [_ Hb].
+    pose proof (retries_step_nonneg c (fst (grun c (evs ++ evs2))) e s) as Hn.
+    assert (Z0 : retries s (snd (gstep c (fst (grun c (evs ++ evs2))) e)) = 0) by lia.
+    assert (S1 : seg_retries s (snd (grun c ((evs ++ evs2) ++ [e]))) = Z.max 0 (pAttempts c)) by lia.
+    split; [exact S1|]. split; [apply exhausted_none; exact S1|lia].
+Qed.
+
+(* ---------------- lossless exactness ---------------- *)
+
+Lemma count_resp_snoc : forall s evs e,
+  count_resp s (evs ++ [e]) = count_resp s evs + (if g_resp_of s e then 1 else 0).
+Proof.
+  intros. unfold count_resp. rewrite filter_app, app_length, Nat2Z.inj_add. cbn [filter].
+  destruct (g_resp_of s e); reflexivity.
+Qed.
+
+Lemma count_resp_nonneg : forall s evs, 0 <= count_resp s evs.
+Proof. intros. unfold count_resp. lia. Qed.
+
+(* the state of an undisturbed call after [k] responses meeting the conditions *)
+Definition exact_inv (c : pcfg) (s : Z) (k : Z) (st : pstore) (tr : list presp) : Prop :=
+  let A := Z.max 0 (pAttempts c) in
+  seg_retries s tr = Z.min k A /\
+  match get Z.eqb st s with
+  | Some (l, _) => l = A - k /\ k < A
+  | None => A <= k
+  end.
+
+(* the opening response of a call that finds nothing *)
+Lemma exact_open : forall c st tr s status vis,
+  in_ranges (pRanges c) status = true ->
+  (vis = false \/ get Z.eqb st s = None) ->
+  let r := gstep c st (GResp s true status vis) in
+  exact_inv c s 1 (fst r) (tr ++ snd r) /\
+  snd r = [(s, true, status, if pAttempts c <? 1 then PNoOp else PRetry)] /\
+  get Z.eqb (fst r) s =
+    (if pAttempts c <? 2 then None
+     else Some (pAttempts c - 1, pCooldown c * pMult c)).
+Proof.
+  intros c st tr s status vis Hin Hf r. unfold r, exact_inv. cbn [gstep fst snd].
+  assert (F : (if vis then get Z.eqb st s else None) = None).
+  { destruct Hf as [->|H]; [reflexivity|]. destruct vis; [exact H|reflexivity]. }
+  rewrite F, seg_snoc, papply_same. unfold seg_step, r_seq, r_new, r_out. cbn [fst snd].
+  rewrite Z.eqb_refl.
+  pose proof (pdecide_cases c None true status) as [[X _]|[_ Hc]];
+    [rewrite Hin in X; discriminate|].
+  destruct Hc as [[X _]|[_ Hc]]; [discriminate|]. cbv zeta in Hc.
+  destruct Hc as [[Hl Ea]|[[Hl Ea]|[Hl Ea]]]; rewrite Ea; cbn [pact_out retry1].
+  - destruct (pAttempts c <? 1) eqn:E1; [|apply Z.ltb_ge in E1; lia].
+    destruct (pAttempts c <? 2) eqn:E2; [|apply Z.ltb_ge in E2; lia].
+    repeat split; lia.
+  - destruct (pAttempts c <? 1) eqn:E1; [apply Z.ltb_lt in E1; lia|].
+    destruct (pAttempts c <? 2) eqn:E2; [|apply Z.ltb_ge in E2; lia].
+    repeat split; lia.
+  - destruct (pAttempts c <? 1) eqn:E1; [apply Z.ltb_lt in E1; lia|].
+    destruct (pAttempts c <? 2) eqn:E2; [apply Z.ltb_lt in E2; lia|].
+    repeat split; lia.
+Qed.
+
+Lemma exact_step : forall c s k st tr e,
+  1 <= k ->
+  exact_inv c s k st tr ->
+  calm c s e = true ->
+  exact_inv c s (k + (if g_resp_of s e then 1 else 0))
+            (fst (gstep c st e)) (tr ++ snd (gstep c st e)).
+Proof.
+  intros c s k st tr e Hk [Hs Hg] Hc. unfold exact_inv.
+  destruct e as [s0 n status vis|s0]; cbn [calm g_resp_of] in Hc |- *.
+  2:{ apply negb_true_iff in Hc. cbn [gstep fst snd]. rewrite app_nil_r, Z.add_0_r.
+      rewrite (get_del_other Z.eqb zeqb_spec)
+        by (intro X; subst; rewrite Z.eqb_refl in Hc; discriminate).
+      split; assumption. }
+  destruct (s0 =? s) eqn:On.
+  2:{ cbn [gstep fst snd]. rewrite Z.add_0_r, seg_snoc.
+      unfold seg_step, r_seq. cbn [fst snd]. rewrite On.
+      rewrite papply_other by (intro X; subst; rewrite Z.eqb_refl in On; discriminate).
+      split; assumption. }
+  apply Z.eqb_eq in On. subst s0.
+  apply andb_true_iff in Hc. destruct Hc as [Hc Hin].
+  apply andb_true_iff in Hc. destruct Hc as [Hn Hv].
+  apply negb_true_iff in Hn. subst n vis.
+  cbn [gstep fst snd]. rewrite seg_snoc, papply_same.
+  unfold seg_step, r_seq, r_new, r_out. cbn [fst snd]. rewrite Z.eqb_refl.
+  pose proof (pdecide_cases c (get Z.eqb st s) false status) as [[X _]|[_ Hc]];
+    [rewrite Hin in X; discriminate|].
+  destruct (get Z.eqb st s) as [[l cd]|].
+  - destruct Hg as [El Hlt].
+    destruct Hc as [[Hl _]|[[Hl Ea]|[Hl Ea]]]; [lia| |]; rewrite Ea; cbn [pact_out retry1].
+    + split; lia.
+    + split; [lia|]. split; lia.
+  - destruct Hc as [[_ Ea]|[X _]]; [|discriminate]. rewrite Ea. cbn [pact_out retry1].
+    split; lia.
+Qed.
+
+Lemma exact_run : forall c evs1 evs2 s status vis,
+  in_ranges (pRanges c) status = true ->
+  (vis = false \/ get Z.eqb (fst (grun c evs1)) s = None) ->
+  forallb (calm c s) evs2 = true ->
+  let r := grun c (evs1 ++ GResp s true status vis :: evs2) in
+  exact_inv c s (1 + count_resp s evs2) (fst r) (snd r).
+Proof.
+  intros c evs1 evs2 s status vis Hin Hf. induction evs2 as [|e evs2 IH] using rev_ind; intro H.
+  - cbv zeta. destruct (grun_snoc_parts c evs1 (GResp s true status vis)) as [Ef Et].
+    rewrite Ef, Et. unfold count_resp. cbn [filter length Z.of_nat]. rewrite Z.add_0_r.
+    apply (exact_open c (fst (grun c evs1)) (snd (grun c evs1)) s status vis Hin Hf).
+  - rewrite forallb_app in H. apply andb_true_iff in H. destruct H as [H1 H2].
+    cbn [forallb] in H2. rewrite andb_true_r in H2. specialize (IH H1). cbv zeta in IH |- *.
+    replace (evs1 ++ GResp s true status vis :: evs2 ++ [e])
+      with ((evs1 ++ GResp s true status vis :: evs2) ++ [e])
+      by (rewrite <- app_assoc; reflexivity).
+    destruct (grun_snoc_parts c (evs1 ++ GResp s true status vis :: evs2) e) as [Ef Et].
+    rewrite Ef, Et, count_resp_snoc, Z.add_assoc.
+    apply exact_step; [pose proof (count_resp_nonneg s evs2); lia|exact IH|exact H2].
+Qed.
